@@ -80,7 +80,7 @@ def run(chk):
         'and low cards swapped, partial deals with 1-4 empty hands - x all four first seats; the encoder text/vector is compared '
         'with the canonical form (oracle in this checker) and the decoded hands with the original sets. The numpy pair (to_np_binary / '
         'convert_np_binary) is folded the same way on a model of numpy\'s one-dimensional arrays (sa.npstub: zeros/where/index and '
-        'mask reads and writes with numpy\'s documented semantics; numpy itself is never run) for three dtypes. generate_random_hands: the pack is only shuffled and sliced, so the four constant slices are evaluated under '
+        'mask reads and writes with numpy\'s documented semantics; numpy itself is never run) for four dtypes (default, float32, int8, bool). generate_random_hands: the pack is only shuffled and sliced, so the four constant slices are evaluated under '
         'three different permutations: 4 disjoint 13-card hands covering the 52 cards. NOT decided: equality for each individual '
         'deal (runtime value); the family covers the shapes, the rank tables are C15.')
     chk.assumptions.append('cards are treated uniformly by the encoders (per-card comprehension / loop), so deal *shapes* are the relevant classes')
@@ -179,7 +179,7 @@ def run(chk):
     for name, hands in deals:
         H = f._construct(repo.cls('Hands'), [], {'north_hand': set(hands['N']), 'east_hand': set(hands['E']),
                                                  'south_hand': set(hands['S']), 'west_hand': set(hands['W'])})
-        for dt in (None, 'float32', 'int8'):
+        for dt in (None, 'float32', 'int8', 'bool_'):
             chk.evals()
             n_np += 1
             b = fold('C14.R2', q_np, lambda: f.call_method(H, 'to_np_binary', *([npstub.DType(dt)] if dt else [])))
@@ -190,7 +190,7 @@ def run(chk):
                     v = b[1].get(players[s])
                     okv = isinstance(v, npstub.Arr) and len(v) == 52 and set(v.data) <= {0, 1} and \
                         {i for i, x in enumerate(v.data) if x == 1} == {idx(c) for c in hands[s]} and \
-                        npstub.kind(v.dtype) == ('f' if dt == 'float32' else 'i') and (dt is None or v.dtype.name == dt)
+                        npstub.kind(v.dtype) == ('f' if dt == 'float32' else 'b' if dt == 'bool_' else 'i') and (dt is None or v.dtype.name == dt)
                     if not okv:
                         why = f'vector of {s}: {v!r}'[:160]
                     good = good and okv
